@@ -104,6 +104,12 @@ def scenarios(dumps, tier, rng=None, syscfg=None):
                 ("kvread", fmt, "read @N %s KVADDR 0x1ff000 8192 %s" % (path, ROOT)),
                 ("readstr", fmt, "readstr @N %s KVADDR 0 %s" % (path, ROOT)),
             ]
+    # a second dump opened in the same context: every ordered pair of formats (quick: the four
+    # base formats; a clone with its own dictionary for some), every allocation of the second open
+    base = [f for f in ("diskdump", "elf", "lkcd", "sadump") if f in dumps] if tier == "quick" else sorted(dumps)
+    for i, a in enumerate(base):
+        for j, b in enumerate(base):
+            sc.append(("reopen2", "%s>%s" % (a, b), "reopen2 @N %s %s %d" % (dumps[a], dumps[b], (i + j) % 3)))
     sc += [
         ("wb_xlat", "-", "wb_xlat @N 0"), ("wb_xlat", "-", "wb_xlat @N 1"),
         ("wb_fcache_new", "-", "wb_fcache_new @N 2 4 2"),
